@@ -234,13 +234,13 @@ func reqrepChain(n int) {
 			if err := c.Send([]byte(q)); err != nil {
 				return nil, err
 			}
-			b, err := c.Recv()
+			b, err := kit.Recv(c)
 			return string(b), err
 		}))
 	}
 	sc := kit.Start("server", func() (interface{}, error) {
 		for i := 0; i < 2; i++ {
-			b, err := srv.Recv()
+			b, err := kit.Recv(srv)
 			if err != nil {
 				return nil, err
 			}
@@ -294,7 +294,7 @@ func surveyChain() {
 	for i, r := range rs {
 		i, r := i, r
 		calls = append(calls, kit.Start(fmt.Sprintf("respondent%d", i), func() (interface{}, error) {
-			b, err := r.Recv()
+			b, err := kit.Recv(r)
 			if err != nil {
 				return nil, err
 			}
@@ -305,7 +305,7 @@ func surveyChain() {
 	var got []string
 	rc := kit.Start("surveyor", func() (interface{}, error) {
 		for i := 0; i < 2; i++ {
-			b, err := sv.Recv()
+			b, err := kit.Recv(sv)
 			if err != nil {
 				return nil, err
 			}
@@ -345,11 +345,11 @@ func pair1Chain() {
 		if err := a.Send([]byte("ping")); err != nil {
 			return nil, err
 		}
-		x, err := a.Recv()
+		x, err := kit.Recv(a)
 		return string(x), err
 	})
 	cb := kit.Start("B", func() (interface{}, error) {
-		x, err := b.Recv()
+		x, err := kit.Recv(b)
 		if err != nil {
 			return nil, err
 		}
@@ -387,14 +387,14 @@ func deviceTTL() {
 	must(c.Dial(fmt.Sprintf("inproc://c09-t%d", n)), "Dial")
 	kit.Quiesce()
 	sc := kit.Start("server", func() (interface{}, error) {
-		b, err := srv.Recv()
+		b, err := kit.Recv(srv)
 		if err != nil {
 			return nil, err
 		}
 		return string(b), srv.Send([]byte("served"))
 	})
 	must(c.Send([]byte("q")), "Send")
-	rc := kit.Start("client", func() (interface{}, error) { b, err := c.Recv(); return string(b), err })
+	rc := kit.Start("client", func() (interface{}, error) { b, err := kit.Recv(c); return string(b), err })
 	kit.Quiesce()
 	want := n+1 <= t
 	if want {
